@@ -10,7 +10,10 @@ stdin: {"cases": [{"prefix": [event, ...], "schedule": [action, ...]}, ...]}
             build a world (e.g. two pull requests that are both ready to merge)
   actions   ["spawn", kind]        kind in github | batch | all: create the notification task and let it run to its first gate
             ["release", t]         task t (index in spawn order) continues from its gate to the next one
-            ["fail", t]            ... the fake call task t is blocked in raises instead
+            ["fail", t]            ... the fake call task t is blocked in raises instead (a plain exception: connection lost); at a
+                                   gate AFTER the call's effect this is a lost response
+            ["failhttp", t]        ... raises gidgethub.HTTPException instead (an HTTP error status from GitHub / a proxy)
+            ["until", t, label]    release task t until it is blocked at the gate `label` (or is done)
             ["auto", policy, n]    at most n times: release one blocked task chosen by policy fifo | lifo  (stops when none is blocked)
             ["world", event]       a GitHub / batch-service event (Push, TargetMove, BatchComplete, Review, ...) happens now
   actions that do not apply (task not blocked / unknown) are skipped and reported as such.
@@ -280,7 +283,7 @@ def run_case(case):
         def blocked(tid):
             return next((g for g in R.gates if g[0] is R.tasks[tid]), None) if 0 <= tid < len(R.tasks) else None
 
-        def one(action, tid, spawned=None, fail=False):
+        def one(action, tid, spawned=None, fail=None):
             """run one atomic segment of task tid and record it"""
             nonlocal max_in
             before = flags()
@@ -291,7 +294,9 @@ def run_case(case):
                 g = blocked(tid)
                 R.gates.remove(g)
                 label = g[2]
-                if fail:
+                if fail == 'failhttp':
+                    g[1].set_exception(B.gidgethub.HTTPException('502 scripted failure at ' + g[2]))
+                elif fail:
                     g[1].set_exception(B.GithubDown('scripted failure at ' + g[2]))
                 else:
                     g[1].set_result(None)
@@ -320,11 +325,17 @@ def run_case(case):
                 R.tasks.append(t)
                 R.kinds.append(act[1])
                 one(act, len(R.tasks) - 1, spawned=act[1])
-            elif k in ('release', 'fail'):
+            elif k in ('release', 'fail', 'failhttp'):
                 if blocked(act[1]) is None:
                     steps.append({'action': act, 'skipped': True})
                     continue
-                one(act, act[1], fail=(k == 'fail'))
+                one(act, act[1], fail=(None if k == 'release' else k))
+            elif k == 'until':
+                for _ in range(3000):
+                    g = blocked(act[1])
+                    if g is None or g[2] == act[2]:
+                        break
+                    one(['release', act[1]], act[1])
             elif k == 'auto':
                 for _ in range(act[2]):
                     ts = [i for i in range(len(R.tasks)) if blocked(i) is not None]
